@@ -1,6 +1,7 @@
 package main
 
 import (
+	"bufio"
 	"bytes"
 	"compress/gzip"
 	"compress/zlib"
@@ -9,6 +10,7 @@ import (
 	"fmt"
 	"io"
 	"io/ioutil"
+	"net"
 	"net/http"
 	"net/http/httptest"
 	"regexp"
@@ -116,7 +118,7 @@ func genActions(r *Rng, n int, panicPct int) []Action {
 			if r.Pct(panicPct) {
 				// (third field: where the panic starts - in the script itself, or inside Request.ReadEntity of a plain /
 				// gzip-encoded body; scripts without a *Request just panic)
-				out = append(out, Action{5, r.Pick([]string{"boom", "bang", "boom", abortText}), r.Pick([]string{"", "", "", "entity", "entity-gzip", "handle-dup"})})
+				out = append(out, Action{5, r.Pick([]string{"boom", "bang", "boom", abortText}), r.Pick([]string{"", "", "", "entity", "entity-gzip", "handle-dup", "entity-write"})})
 			}
 		}
 	}
@@ -270,6 +272,9 @@ func genDisp(r *Rng) Sx {
 		}
 		if q.Get("Accept-Encoding") == "" && r.Pct(8) {
 			q.Set("X-Verif-Gone", "1") // the client is gone: every Write to the underlying writer reports an error
+		}
+		if r.Pct(10) {
+			q.Set("X-Verif-Hijack", "1") // the route function tries to hijack first; the server refuses
 		}
 		preset := ""
 		if r.Pct(8) {
@@ -448,6 +453,11 @@ func runActions(env *dispEnv, l []Action, rq *restful.Request, rp *restful.Respo
 					env.c.Handle(dupPattern, http.NotFoundHandler())
 				}()
 				panicWith(a.A)
+			case a.B == "entity-write":
+				// the panic starts inside the entity WRITER (a value whose MarshalJSON panics), before anything is sent
+				rp.PrettyPrint(true)
+				rp.SetRequestAccepts(restful.MIME_JSON)
+				rp.WriteEntity(panickyOut{a.A})
 			case a.B != "" && a.B != "handle-dup":
 				readPanickingEntity(rq, a.A, a.B == "entity-gzip") // panics from inside ReadEntity - if all is well
 			default:
@@ -472,6 +482,10 @@ const dupPattern = "/zz-taken-pattern"
 type panicky struct{ msg string }
 
 func (p *panicky) UnmarshalJSON([]byte) error { panicWith(p.msg); return nil }
+
+type panickyOut struct{ msg string }
+
+func (p panickyOut) MarshalJSON() ([]byte, error) { panicWith(p.msg); return nil, nil }
 
 func readPanickingEntity(rq *restful.Request, msg string, gz bool) {
 	body := []byte(`{"a":1}`)
@@ -761,6 +775,11 @@ func buildDisp(cfg Sx, env *dispEnv) *restful.Container {
 				lg.add("saw:" + rq.SelectedRoutePath() + " " + strings.Join(ps, ";"))
 				// user code may write into the map it is handed; that must stay within this request (C19)
 				rq.PathParameters()["zz-left-behind"] = itoa(rs.ID)
+				if rq.Request.Header.Get("X-Verif-Hijack") == "1" {
+					// user code that tries to take the connection over, is refused by the server and goes on to answer
+					// in the ordinary way: the refused attempt changes nothing
+					rp.Hijack()
+				}
 				runActions(env, hs[rs.ID], rq, rp, lg)
 			})
 			ws.Route(b)
@@ -813,6 +832,13 @@ func (g goneWriter) Write(p []byte) (int, error) {
 	return 0, errGone
 }
 
+// a server that can hand over connections in principle but refuses this one
+type noHijackWriter struct{ http.ResponseWriter }
+
+func (noHijackWriter) Hijack() (net.Conn, *bufio.ReadWriter, error) {
+	return nil, nil, fmt.Errorf("hijack refused")
+}
+
 var errGone = fmt.Errorf("write: broken pipe")
 
 func sortStrings(l []string) {
@@ -845,6 +871,9 @@ func serveOne(c *restful.Container, env *dispEnv, i int, h Sx) Sx {
 	var w http.ResponseWriter = rec
 	if hr.Header.Get("X-Verif-Gone") == "1" {
 		w = goneWriter{rec}
+	}
+	if hr.Header.Get("X-Verif-Hijack") == "1" {
+		w = noHijackWriter{w}
 	}
 	panicMsg := Ls{}
 	done := make(chan struct{})
